@@ -199,6 +199,7 @@ class LoopingCall:
         # Loop might fail to start and then self._deferred will be cleared.
         # This why the local C{deferred} variable is used.
         deferred = self._deferred = Deferred()
+        self._realLastTime = None
         self.starttime = self.clock.seconds()
         self.interval = interval
         self._runAtStart = now
